@@ -13,10 +13,16 @@
 (* ("within" the radius, <=); the driver emits them only where the float   *)
 (* arithmetic of the code is exact (dyadic tick, power-of-two scales).     *)
 (*                                                                         *)
-(* A geometry is g = [h, w, sy, sx, oy, ox].  A pixel centre is taken in   *)
-(* the mask's OWN scaled coordinates (origin included), and the centre of  *)
-(* a shape is a coordinate of that same system: shifting the origin and    *)
-(* the centre by the same vector gives the same mask.                      *)
+(* A geometry is g = [h, w, sy, sx, oy, ox].  CONVENTION of the shape       *)
+(* constructors (the code base's, shared with C02 and C12): the `centre`   *)
+(* of a shape is measured in the frame's own centred coordinates, i.e.     *)
+(* RELATIVE TO THE MASK ORIGIN; pixel centres enter the radial test with   *)
+(* origin (0,0).  The `origin` handed to a constructor is only attached to *)
+(* the resulting mask: the boolean array is the same for every origin      *)
+(* (that is translation covariance in this convention: nothing depends on  *)
+(* where the origin is, only on positions relative to it).  The summaries  *)
+(* (mask_centre, zoom offsets ...) use the mask's own coordinates, origin  *)
+(* included.                                                               *)
 (*                                                                         *)
 (* A mask is its set U of UNMASKED cells <<i,j>> (0-based, row i from the  *)
 (* top, column j from the left).                                           *)
@@ -28,7 +34,7 @@ EXTENDS Integers, Sequences, FiniteSets, TLC, Json, SequencesExt, FiniteSetsExt
 
 CONSTANTS ShapeFrames,     \* set of <<H,W>>: frames of the constructor machine
           ShapeScalePairs, \* set of <<sy,sx>> (multiples of 4)
-          OriginCentres,   \* set of << <<oy,ox>>, <<ry,rx>> >>: origin handed to the constructor and centre RELATIVE to it
+          OriginCentres,   \* set of << <<oy,ox>>, <<cy,cx>> >>: origin handed to the constructor and centre (relative to it)
           FarR2,           \* set of odd R2: generic radii (about zero ... beyond the frame)
           Ells,            \* set of <<qn,qd,c,s,n>>: axis ratio qn/qd (qn odd), rotation cos = c/n, sin = s/n (n odd)
           EllPairs,        \* set of << ell, ell >> (inner, outer) for the elliptical annulus
@@ -67,11 +73,14 @@ CentreX(g, j) == g.ox + (2*j - g.w + 1) * (g.sx \div 2)
 Centre(g, c) == << CentreY(g, c[1]), CentreX(g, c[2]) >>
 
 -----------------------------------------------------------------------------
-(* Layer 1b: the shape-based constructors.  p = [kind, cy, cx, r, e1, e2]: the centre <<cy,cx>> is a coordinate  *)
-(* of the mask's own system, r the sequence of radii as R2 = 2 r^2, e1 / e2 ellipses [qn, qd, c, s, n].          *)
+(* Layer 1b: the shape-based constructors.  p = [kind, cy, cx, r, e1, e2]: the centre <<cy,cx>> is measured       *)
+(* relative to the mask origin (pixel centres with origin (0,0)), r the sequence of radii as R2 = 2 r^2, e1 / e2 *)
+(* ellipses [qn, qd, c, s, n].  g.oy, g.ox do not enter any operator of this layer.                              *)
 
-Dy(g, c, p) == CentreY(g, c[1]) - p.cy
-Dx(g, c, p) == CentreX(g, c[2]) - p.cx
+Centre0Y(g, i) == (g.h - 1 - 2*i) * (g.sy \div 2)
+Centre0X(g, j) == (2*j - g.w + 1) * (g.sx \div 2)
+Dy(g, c, p) == Centre0Y(g, c[1]) - p.cy
+Dx(g, c, p) == Centre0X(g, c[2]) - p.cx
 D2(g, c, p) == Sq(Dy(g, c, p)) + Sq(Dx(g, c, p))
 
 \* Ellipse e: axis ratio q = qn/qd (minor/major), major axis rotated counter-clockwise from the positive x-axis by
@@ -95,9 +104,9 @@ Unmasked(g, c, p) ==
 ShapeSet(g, p) == { c \in Cells(g) : Unmasked(g, c, p) }
 
 \* The same sets formulated the way the code computes them: the shape centre is first converted to the pixel-space
-\* centre  (H-1)/2 - (cy - oy)/sy,  (W-1)/2 + (cx - ox)/sx  (kept times 2 sy / 2 sx), offsets are measured from
+\* centre  (H-1)/2 - cy/sy,  (W-1)/2 + cx/sx  (kept times 2 sy / 2 sx), offsets are measured from
 \* it with y increasing DOWNWARD, the rotation enters as  theta = atan2(y_down, x) + angle.
-PixCentre2(g, p) == << (g.h - 1) * g.sy - 2 * (p.cy - g.oy), (g.w - 1) * g.sx + 2 * (p.cx - g.ox) >>
+PixCentre2(g, p) == << (g.h - 1) * g.sy - 2 * p.cy, (g.w - 1) * g.sx + 2 * p.cx >>
 CodeYs2(g, c, p) == 2 * c[1] * g.sy - PixCentre2(g, p)[1]         \* 2 * y_scaled (downward)
 CodeXs2(g, c, p) == 2 * c[2] * g.sx - PixCentre2(g, p)[2]         \* 2 * x_scaled
 CodeEllNum4(g, c, p, e) ==
@@ -114,12 +123,7 @@ CodeUnmasked(g, c, p) ==
                                              /\ 2 * CodeEllNum4(g, c, p, p.e2) <= 4 * EllLim(p.e2, p.r[2])
          [] OTHER -> FALSE
 
-\* what a constructor returns if it measures pixel centres from (0,0) whatever origin it was given (only used to
-\* classify a rejected record: "the origin was ignored")
-NoOrigin(g) == [g EXCEPT !.oy = 0, !.ox = 0]
-OriginIgnoredSet(g, p) == ShapeSet(NoOrigin(g), p)
-
-\* translation of a call by the vector d = <<dy,dx>> (origin and centre alike)
+\* the same frame with another origin / the same call with the centre moved by d = <<dy,dx>>
 ShiftGeo(g, d) == [g EXCEPT !.oy = g.oy + d[1], !.ox = g.ox + d[2]]
 ShiftPar(p, d) == [p EXCEPT !.cy = p.cy + d[1], !.cx = p.cx + d[2]]
 
@@ -269,8 +273,8 @@ Summary(g, U) ==
 DiscInfinite(g, p, m) == { c \in ((0 - m) .. (g.h - 1 + m)) \X ((0 - m) .. (g.w - 1 + m)) : 2 * D2(g, c, p) <= p.r[1] }
 CircPremise(g, p) ==
     /\ p.kind = "circular" /\ g.sy = g.sx
-    /\ LET ay == (CentreY(g, 0) - p.cy) % g.sy
-           ax == (CentreX(g, 0) - p.cx) % g.sx
+    /\ LET ay == (Centre0Y(g, 0) - p.cy) % g.sy
+           ax == (Centre0X(g, 0) - p.cx) % g.sx
        IN (ay = 0 /\ ax = 0) \/ (ay = g.sy \div 2 /\ ax = g.sx \div 2)
     /\ ShapeSet(g, p) # {}
     /\ DiscInfinite(g, p, 1) = ShapeSet(g, p)
@@ -305,7 +309,7 @@ NoPar == << >>
 InitShape == /\ mode = "shape"
              /\ \E f \in ShapeFrames, sc \in ShapeScalePairs, oc \in OriginCentres :
                    /\ g = Geo(f[1], f[2], sc[1], sc[2], oc[1][1], oc[1][2])
-                   /\ par \in { p \in Params(g, << oc[1][1] + oc[2][1], oc[1][2] + oc[2][2] >>) : ParOk(p) }
+                   /\ par \in { p \in Params(g, oc[2]) : ParOk(p) }
              /\ U = {}
              /\ obs = << >>
 InitPix == /\ mode = "pix"
@@ -414,12 +418,14 @@ ShapesAreRadialSets ==
          /\ (par.kind = "elliptical_annular" =>
                ShapeSet(g, [par EXCEPT !.e1 = round(par.e1), !.e2 = round(par.e2)]) = disc(par.r[2]) \ hole(par.r[1]))
 
-\* Translation covariance: shifting origin and centre by the same vector changes nothing in index space; shifting
-\* the centre alone by whole pixels moves the mask by that many pixels (clipped to the frame).
+\* Translation covariance in the constructors' convention: the mask does not depend on the origin (it is the same
+\* set for every origin, in the definition and in the code-like formulation alike);
+\* shifting the centre by whole pixels moves the mask by that many pixels (clipped to the frame).
 ShapeTranslationCovariance ==
     SeenShape =>
-      /\ \A d \in { << g.sy, 0 >>, << 0, - g.sx >>, << 2 * g.sy, 3 * g.sx >>, << -6, 10 >> } :
-            ShapeSet(ShiftGeo(g, d), ShiftPar(par, d)) = ShapeSet(g, par)
+      /\ \A d \in { << g.sy, 0 >>, << 0, - g.sx >>, << 2 * g.sy, 3 * g.sx >>, << -6, 10 >>, << - g.oy, - g.ox >> } :
+            /\ ShapeSet(ShiftGeo(g, d), par) = ShapeSet(g, par)
+            /\ { c \in Cells(g) : CodeUnmasked(ShiftGeo(g, d), c, par) } = ShapeSet(g, par)
       /\ \A k \in { << 1, 0 >>, << 0, 1 >>, << -1, 2 >> } :
             \* (a shift up by k[1] pixels lowers the row index, a shift right by k[2] pixels raises the column index;
             \*  Unmasked is defined for pixels outside the frame too)
